@@ -260,6 +260,7 @@ class Weaver:
         self.src = os.path.join(repo_root, 'src')
         self.transforms = []
         self.lost = []
+        self.soft_lost = []   # site anchors that no longer match: the site clause is dropped, the run continues
         self.fn_info = []     # filled by weave_file: dicts per function
         self.demote = set(demote)   # (file, qual) forced to external_body
         self.overlays = {}
@@ -567,7 +568,10 @@ class Weaver:
                     for (needle, nth), clause in spec.get(kind, []):
                         idxs = [m.start() for m in re.finditer(re.escape(needle), body) if code(f['open'] + m.start())]
                         if nth > len(idxs):
-                            self.lost.append(f"{rel}: {kind} \"{needle}\" #{nth} in {qual}"); continue
+                            tg = set(props)
+                            for tm in re.finditer(r'(?m)^\s*\[((?:C\d+)(?:,C\d+)*)\]|/\*@p ((?:C\d+)(?:,C\d+)*)\*/', clause):
+                                tg |= set((tm.group(1) or tm.group(2)).split(','))
+                            self.soft_lost.append({'desc': f"{rel}: {kind} \"{needle}\" #{nth} in {qual}", 'props': sorted(tg)}); continue
                         p = f['open'] + idxs[nth - 1]
                         if kind == 'before':
                             ls = s.rfind('\n', 0, p) + 1
@@ -677,7 +681,7 @@ def line_map(woven):
     i = 0; n = len(woven)
     cur = {'file': None, 'line': 0}
     lines = woven.split('\n')
-    tok = re.compile(r'/\*@@file (\S+)\*/|/\*@@begin\*/|/\*@@endfile\*/|/\*@\+ (\S+) (\S+)\*/|/\*@-\*/')
+    tok = re.compile(r'/\*@@file (\S+)\*/|/\*@@begin\*/|/\*@@endfile\*/|/\*@\+ (.*?) ([C0-9,]+|-)\*/|/\*@-\*/')
     for ln, text in enumerate(lines, 1):
         # state at line start decides the attribution; tokens on the line update state for following text
         entry = None
